@@ -19,7 +19,8 @@ GuessAlias(elem) == LET a == DropDigits(NormName(elem)) IN IF a = "" THEN "pkg" 
 
 Parent(p) == SubSeq(p, 1, Len(p) - 1)
 \* forms of goverter:output:file
-OFiles == {"default", "./x.go", "../o/x.go", "sub/x.go", "@cwd/o/x.go", "@cwd/My-Pkg_1/x.go", "abs"}
+\* (deep/er/x.go: two directory levels that do not exist yet)
+OFiles == {"default", "./x.go", "../o/x.go", "sub/x.go", "deep/er/x.go", "@cwd/o/x.go", "@cwd/My-Pkg_1/x.go", "abs"}
 \* forms of goverter:output:package
 OPkgs == {"absent", ":nm", "path", "path:nm"}
 \* the working directory goverter was given: the process directory, or -cwd
@@ -32,6 +33,7 @@ OutDir(decl, of, cf) ==
     [] of = "./x.go" -> decl
     [] of = "../o/x.go" -> Parent(decl) \o <<"o">>
     [] of = "sub/x.go" -> decl \o <<"sub">>
+    [] of = "deep/er/x.go" -> decl \o <<"deep", "er">>
     [] of = "@cwd/o/x.go" -> Cwd(decl, cf) \o <<"o">>
     [] of = "@cwd/My-Pkg_1/x.go" -> Cwd(decl, cf) \o <<"My-Pkg_1">>
     [] of = "abs" -> <<"absout">>                            \* an absolute path below the module root
